@@ -1766,6 +1766,26 @@ def rule_moments_vector(ctx, prog, rule="R13"):
             okm = not refs_order and uses_k
             detail = "the k-th raw moment is Σ x^k / n with k the loop variable only (independent of the requested order)" if okm else \
                 "pushed raw moment `%s` depends on `order` or not on k" % fmt(pushed)[:120]
+            # … and it is exactly Σ x^k / n: sum(map(a, |x| x.powi(k))) / from_usize(len(a)) with the exponent the loop variable itself
+            def n_elems(e):
+                e = unwrap_try(e)
+                return isinstance(e, tuple) and e[0] == "call" and e[1] == "from_usize" and ds(e[3][0])[0] == "call" and \
+                    ds(e[3][0])[1] == "len" and ds(ds(e[3][0])[3][0])[:2] == ("param", 1)
+            exact = False
+            if isinstance(pushed, tuple) and pushed[0] == "call" and pushed[1] == "div" and n_elems(pushed[3][1]):
+                sm = ds(pushed[3][0])
+                if isinstance(sm, tuple) and sm[0] == "call" and sm[1] == "sum" and ds(sm[3][0])[0] == "call" and ds(sm[3][0])[1] in ("map", "mapv"):
+                    mp = ds(sm[3][0])
+                    cbk, upsk = closure_of(prog, mp[3][1])
+                    if cbk is not None and ds(mp[3][0])[:2] == ("param", 1):
+                        cr = ds(cbk.return_expr())
+                        if isinstance(cr, tuple) and cr[0] == "call" and cr[1] == "powi" and ds(cr[3][0])[:2] == ("param", 2):
+                            ex_ = ds(cr[3][1])
+                            if isinstance(ex_, tuple) and ex_[0] == "upvar":
+                                exact = ds(upsk[ex_[1]]) == item
+            if okm and not exact:
+                okm = False
+                detail = "the raw moment pushed for k is `%s`, not sum(a.map(|x| x.powi(k))) / n with the exponent k itself" % fmt(pushed)[:120]
     except Unrecognised as ex:
         detail = "anchor not recognised: %s" % ex
     ctx.ob(rule, "moments/prefix-independent", okm, mo.where(), detail, what="raw moment k depends on the requested order")
